@@ -340,7 +340,8 @@ C01_NotBeforeSubmit == \A j \in Jobs : enters[j] > 0 => sub[j] # "none"
 C01_NoCancelled == E.ev = "enter" /\ E.job \in Jobs => ~closeNil[E.job]
 ExpectedId(j) == IF BatchOf(j) # 0 THEN "g:id-" \o ToString(j) ELSE "id-" \o ToString(j)
 C01_Identity == E.ev = "enter" /\ E.job \in Jobs =>
-                   IF hdr.idgen /\ BatchOf(E.job) = 0 THEN E.idgen ELSE E.id = ExpectedId(E.job)
+                   IF hdr.idgen /\ BatchOf(E.job) = 0 /\ ~IsAdapterQ(QOf(E.job)) THEN E.idgen ELSE E.id = ExpectedId(E.job)
+C07_Identity == C01_Identity
 C01_AtRest == RunningAtRest => \A j \in Jobs : Accepted(j) /\ ~Excused(j) => enters[j] = 1 /\ exits[j] = 1
 
 ---- \* C02 bounded parallelism
